@@ -263,6 +263,8 @@ class ElementList(MutableSequence):
         :class:`Element <hl7apy.core.Element>`
         :param child: an instance of an :class:`Element <hl7apy.core.Element>` subclass
         """
+        if any(c is child for c in self.list):  # it is already a child of the element
+            return
         if self._can_add_child(child):
             if self.element == child.parent:
                 self._remove_from_traversal_index(child)
@@ -774,10 +776,19 @@ class Element(object):
         return self._parent
 
     def _set_parent(self, parent):
+        old_parent = self.__dict__.get('_parent')
         self._parent = parent
         if parent is not None:
             self.traversal_parent = None
-            self.parent.add(self)
+            try:
+                self.parent.add(self)
+            except Exception:
+                self._parent = old_parent
+                raise
+            # an element has only one parent: it leaves the previous one
+            if old_parent is not None and old_parent is not parent and \
+                    any(c is self for c in old_parent.children.list):
+                old_parent.children.remove(self)
 
     parent = property(_get_parent, _set_parent,
                       doc="The parent :class:`Element <hl7apy.core.Element>` of this one")
